@@ -1309,7 +1309,9 @@ def emit_negative(em, sh, rng, chunk):
         chunk.append("\t{ w := new(W[%s]); ps := &w.S; other := new(Other); wp, wn := unsafe.Pointer(w), unsafe.Sizeof(*w)" % T)
         chunk.append("\tmk := func() optics.Reflector[%s] { return optics.ForSpectrum1[%s, %s](%s) }" % (gosrc(A), T, gosrc(A), gostrlit(e["key"])))
         dyns = [("$S", "w.S", False), ("(ptr $S)", "&w.S", True), ("(ptr %s)" % sexpr(OTHER), "other", False), ("(ptr (ptr $S))", "&ps", False),
-                ("nil", "nil", False), ("int", "int(7)", False), ("(ptr int)", "new(int)", False)]
+                ("nil", "nil", False), ("int", "int(7)", False), ("(ptr int)", "new(int)", False),
+                # values whose reflect.Type also has an Elem() of the container type, without being a pointer to it
+                ("(slice $S)", "[]%s{w.S}" % T, False), ("(array 1 $S)", "[1]%s{w.S}" % T, False)]
         for (dsx, dgo, ok) in dyns:
             for op in ("gett", "putt"):
                 req = "refl %d $S %s %s %s %s" % (sid, sh.sx(A), e["key"], dsx, op)
